@@ -25,7 +25,10 @@ RULE = (
     'evaluated on that affiliation and each E-step with the independent '
     'Bayes posterior of the previous model (clipped where configured; one '
     'common per-bin permutation when an inline aligner is used); end-to-end '
-    'composition when the hook does not fire. Repetition law: integer '
+    'composition when the hook does not fire; the built-in spatial/spectral '
+    'alignment of the integration models inside fit (E-step = posterior of a '
+    'class permutation of the spatial stream that is no worse than the '
+    'identity). Repetition law: integer '
     'saliency 1..4 versus repeated observations for all seven trainers. '
     'Non-trivial: saliency not constant or K >= 2 with >= 2 iterations. '
     'Distinct = distinct recorded choice sequence.'
